@@ -58,7 +58,7 @@ func thinGr(in []*gfam.Grammar, every int) []*gfam.Grammar {
 
 func grammarJobs(quick bool) []job {
 	t := gfam.Thorough
-	every := 6
+	every := 400
 	if quick {
 		t = gfam.Quick
 		every = 90
@@ -612,7 +612,7 @@ func plan(c *hx.Ctx) *hx.Plan {
 	js = append(js, job{kind: "multiline"}, job{kind: "flat"})
 	maxLen, pump, nest := 3, 1000, 256
 	if !c.Quick() {
-		maxLen, pump, nest = 4, 100000, 512
+		maxLen, pump, nest = 4, 20000, 512
 	}
 	if c.Extra["only"] != "" {
 		var sel []job
